@@ -26,6 +26,16 @@ def parse_dec(s):
 
 
 
+def parse_dec_exact(text):
+    """value of a decimal string as the contract reads it, or None when this oracle does not judge it: beyond 28
+    digits / 96 bits the implementation's parser rounds; that reading is the model's business (Dec.dec_parse,
+    compared case by case in the correspondence), not the oracles'"""
+    digits = text.replace("_", "").lstrip("+-").replace(".", "")
+    if not digits.isdigit():
+        return None
+    return parse_dec(text) if len(digits) <= 28 and int(digits) < 2 ** 96 else None
+
+
 def addr_ok(s):
     return 3 <= len(s) <= 90 and s == s.lower() and "\x00" not in s
 
@@ -204,7 +214,8 @@ def project(prop, b, ev, ctx):
     is_exec = k in ("EXEC", "PEXEC")
     ok = b.ok
     if prop == "C01":
-        if k == "EXEC" and not ctx["migration"]:
+        if k in ("EXEC", "MIGRATE"):
+            # every amount on the book after the step (a migration rewrites bids: what they are owed must not move)
             return (ok, (flows(b, ev), tuple(sorted(ask_amounts(a) for a in b.asks.values())),
                          tuple(sorted(bid_amounts(x) for x in b.bids.values()))))
     elif prop == "C02":
@@ -227,6 +238,10 @@ def project(prop, b, ev, ctx):
         if is_exec and sub in PRIV and unauthorized(ev, ctx["pre"]):
             return (None, (ok, len(b.msgs) if ok else 0))
     elif prop == "C06":
+        if k == "MIGRATE":
+            # what every order's exit will have to return is fixed by the book the migration leaves behind
+            return (ok, (tuple(sorted(ask_amounts(a) for a in b.asks.values())),
+                         tuple(sorted(bid_amounts(x) for x in b.bids.values()))))
         if k == "PEXEC" and sub in ("cancel_ask", "cancel_bid", "expire_ask", "expire_bid"):
             ai, bi = ev.ids()
             return (None, (ok, flows(b, ev), tuple(sorted(repr(shape(m)) for m in b.msgs)) if ok else (),
@@ -243,6 +258,10 @@ def project(prop, b, ev, ctx):
             # approver, the amount recorded and the remaining size
             return (ok, tuple(sorted((a.key, a.cls, a.size if a.cls[0] == "ready" else None) for a in b.asks.values())))
     elif prop == "C09":
+        if k == "MIGRATE":
+            # fee escrowed and fee consumed so far, per bid, as the migration leaves them
+            return (ok, tuple(sorted((x.key, x.fee, x.acc_fee, x.acc_quote) if isinstance(x, fmt.Bid) else ("raw", repr(bid_amounts(x)))
+                                     for x in b.bids.values())))
         if is_exec and sub == "create_bid":
             _, bi = ev.ids()
             return (None, (ok, tuple((x.key, x.fee) for x in b.bids.values() if isinstance(x, fmt.Bid) and x.key in bi)))
@@ -253,7 +272,7 @@ def project(prop, b, ev, ctx):
         if k in ("EXEC", "PEXEC", "INST", "MIGRATE", "PMIGRATE"):
             return (ok, tuple(sorted(repr(shape(m)) for m in b.msgs)))
     elif prop == "C11":
-        if k in ("EXEC", "PEXEC"):
+        if k in ("EXEC", "PEXEC", "MIGRATE"):
             return (ok, (book_lines(b), line_of(b, "CFG"), line_of(b, "VER")))
     elif prop == "C12":
         if is_exec and sub == "modify_contract":
@@ -266,8 +285,9 @@ def project(prop, b, ev, ctx):
             return (None, (ok, line_of(b, "CFG"), line_of(b, "VER"), tuple(b.msgs)))
     elif prop == "C14":
         if k in ("MIGRATE", "PMIGRATE"):
-            return (None, (ok, tuple(l for l in b.lines if l.split(" ", 1)[0] in ("ASK", "ASKX")), line_of(b, "CFG"),
-                           line_of(b, "VER"), tuple(b.msgs)))
+            # "preserves the book": asks exactly, and the bid slots it leaves (their conversion is C15's subject, their
+            # presence, keys and readability are the book's)
+            return (None, (ok, book_lines(b), line_of(b, "CFG"), line_of(b, "VER"), tuple(b.msgs)))
     elif prop == "C15":
         if k in ("MIGRATE", "PMIGRATE"):
             return (ok, tuple(l for l in b.lines if l.split(" ", 1)[0] in ("BID3", "BID2", "BIDX")))
@@ -553,8 +573,8 @@ class Oracle:
                     if book:
                         if attrs is not None:
                             out.append(("C12", None, "%s attributes changed while %ss are open" % (side, side)))
-                        r0 = parse_dec(f0[1]) if f0 else None
-                        r1 = parse_dec(f1[1]) if f1 else None
+                        r0 = parse_dec_exact(f0[1]) if f0 else None
+                        r1 = parse_dec_exact(f1[1]) if f1 else None
                         if (f0 is None) != (f1 is None) or (r0 is not None and r1 is not None and r0 != r1):
                             out.append(("C12", None, "%s fee rate changed while %ss are open" % (side, side)))
                 if (self.asks or self.bids) and ap is not None and not set(c0.approvers) <= set(ap):
@@ -748,7 +768,7 @@ class Oracle:
                 if ev.sub == "execute_match":
                     a0, b0 = self.asks.get(ai[0]), self.bids.get(bi[0])
                     s = int(ev.args[3])
-                    p, bp = parse_dec(fmt.dec(ev.args[2])), parse_dec(b0.price)
+                    p, bp = parse_dec_exact(fmt.dec(ev.args[2])), parse_dec_exact(b0.price)
                     q = b0.quote_denom
                     seller = a0.cls[1] if a0.cls[0] == "ready" else a0.owner
                     allowed = {SELF, b0.owner, seller} | ({self.cfg.ask_fee[0]} if self.cfg.ask_fee else set()) | \
@@ -790,7 +810,7 @@ class Oracle:
                         if side_ask and got != dict((kk, v) for kk, v in want.items() if v):
                             out.append(("C04", None, "ask reversal of %d paid %r" % (c, sorted(got.items()))))
                         if not side_ask:
-                            pr = parse_dec(o.price)
+                            pr = parse_dec_exact(o.price)
                             paid = got.get((o.owner, o.quote_denom), 0)
                             fee_back = o.rem_fee - (after.rem_fee if after is not None else 0)
                             if set(got) - {(o.owner, o.quote_denom)}:
@@ -809,7 +829,7 @@ class Oracle:
                 try:
                     _, bi = ev.ids()
                     nb = b.bids.get(bi[0])
-                    rate = parse_dec(self.cfg.bid_fee[1]) if self.cfg.bid_fee else Fraction(0)
+                    rate = parse_dec_exact(self.cfg.bid_fee[1]) if self.cfg.bid_fee else Fraction(0)
                     if isinstance(nb, fmt.Bid) and rate is not None and rate >= 0:
                         exact = rate * nb.quote_amt
                         q, r = divmod(exact.numerator, exact.denominator)
@@ -844,7 +864,7 @@ class Oracle:
         if k == "EXEC" and b.ok and clean:
             for x in b.bids.values():
                 if isinstance(x, fmt.Bid):
-                    pr = parse_dec(x.price)
+                    pr = parse_dec_exact(x.price)
                     if x.rem_base < 1 or (pr is not None and pr * x.rem_base != x.rem_quote):
                         out.append(("C11", None, "bid %s: unspent quote %d, price*unfilled is %s" % (x.key[:8], x.rem_quote, None if pr is None else pr * x.rem_base)))
             for a in b.asks.values():
